@@ -135,7 +135,7 @@ theorem C05_composite_ignored_unassigned (p : Program) (hchk : PlanCheck.checkPr
       ∀ (i : Nat) (tf : FieldInfo) (tty : Ty), tfs.toList[i]? = some (tf, tty) →
         ∃ f, plans.toList[i]? = some f ∧
           (∀ nm, f = .skip nm → (erase.eraseFields ws).lookup tf.name = some (erase (zeroVal p.conv.env 63 tty))) ∧
-          FieldOutcome p.conv.env sfs.toList fs tf tty
+          FieldOutcome p.conv.env (CtorSig p) sfs.toList fs tf tty
             (erase.eraseFields (zeroVal.zeroFields p.conv.env 63 tfs.toList)) (erase.eraseFields ws) f := by
   obtain ⟨hnd, ws, hv', himg⟩ := convert_struct_onto p (checkProgU_sound p hchk) fuel m gm plans upd hm hb sfs tfs hs ht fs hwt
     cs n v' n' hev
